@@ -124,7 +124,7 @@ theorem sum_payout_eq (ms : Mid) (l : List (Id × Fc1)) (h : ∀ x ∈ l, Fc1For
     rw [ih (fun x hx => h x (List.mem_cons_of_mem _ hx))]
     have := (h a List.mem_cons_self).2
     unfold Fc1.val
-    cur_omega
+    c1_omega
 
 theorem v1txn_conserves {T} {ms ms' : Mid} {t : Txn1} {pid : Id} {mw : Nat} {R : List (Kind × Id)}
     (hc : Ctx T ms.base) (hI : Inv T ms) (hsupp : SuppOk ms.base t.supp)
@@ -144,7 +144,7 @@ theorem v1txn_conserves {T} {ms ms' : Mid} {t : Txn1} {pid : Id} {mw : Nat} {R :
   obtain ⟨hnd12, hndr, _⟩ := hnd
   rw [List.nodup_append] at hnd12
   obtain ⟨hndsc, hndsf, _⟩ := hnd12
-  rw [applyTransaction_eq] at ha
+  rw [applyTransaction_eq_c1] at ha
   rw [bind_eq_ok] at ha; obtain ⟨ms1, a1, ha⟩ := ha
   rw [bind_eq_ok] at ha; obtain ⟨ms2, a2, ha⟩ := ha
   rw [bind_eq_ok] at ha; obtain ⟨ms3, a3, ha⟩ := ha
@@ -310,7 +310,7 @@ theorem v1txn_conserves {T} {ms ms' : Mid} {t : Txn1} {pid : Id} {mw : Nat} {R :
     rw [hb4] at e5P
     rw [hsfeq] at e3P
     clear hv hv1 hv2 hv3 hv4 a1 a2 a3 a4 a5 a6 a7 hF F1 F2 F3 F4 F5 F6 F7 e3W e4W
-    cur_omega
+    c1_omega
   · rw [sfTot_congr f1 f5, e7S, e6S, e5S, hS4]
   · rw [f8, e7p, e6p, e5p, e4p, e3p, e2p, e1p]
     unfold Cur; omega
